@@ -8,6 +8,7 @@ import GoBT.Script.ParseUnparse
 import GoBT.Script.Parse
 import GoBT.Script.Asm
 import GoBT.Script.TableFacts
+import GoBT.Script.WriteReviewLib
 namespace GoBT.C13
 open GoBT GoBT.Script
 
@@ -625,5 +626,13 @@ theorem parse_unparse_round_trip (errCS : Bool) (ops : List POp) (bytes : Bytes)
     (hall : ∀ o ∈ ops, o.WF ∧ o.op ≠ opRETURN ∧ (errCS = true → requiresTx o.op = false))
     (hb : unparse ops = .ok bytes) (hlen : ops.length ≤ bytes.length) : parseScript bytes errCS = .ok ops :=
   parseScript_unparse errCS ops bytes hall hb hlen
+
+/-- Regenerated fact (go/ssa write-site table of packages bt and bscript, `Gen/WritesLib.lean`): in the script codecs (package bscript) every
+    store, `copy`, `append` and every call that writes through a parameter or a `*Script` targets a buffer allocated in the
+    same function (or is a reviewed part of the function's contract), and every byte slice handed to another package
+    goes to a reviewed read-only function (GoBT/Script/WriteReviewLib.lean).  Code that appends to or writes into a
+    slice it was handed — a previous-output script, a caller's hash, a destination's old buffer — adds a row with a
+    `param:` / `field:` / `deref:` origin and breaks this obligation. -/
+theorem lib_writes_only_fresh_buffers : GoBT.Script.WriteReviewLib.writesOkFor "C13" = true := by decide +kernel
 
 end GoBT.C13
